@@ -20,6 +20,9 @@ CHECKS = {
  'C08': dict(level='exploration', design='3/C08', technique='runtime monitor at the transport boundary: simulated transports + reference extender on a deterministic reference calendar; result compared element-wise with source and reply',
    text='Source signatures from the reference aggregator (calendar chains cut from one deterministic reference calendar so that right links of the same second agree across publication times) are extended through the blocking HTTP/TCP clients and the asynchronous service to {calendar head, later, equal, earlier time, a publication record, a publication record with a wrong hash}; the reference extender answers honestly or with one of 21 deviations (wrong id, other times, wrong shape, other input hash, altered right link, status error, bad MAC, other version, truncated/garbled, transport errors). Success is accepted only for honest replies; then aggregation chains must be byte-identical to the source, the calendar element must be the reply chain, publication record as supplied, no authentication record, the reference evaluator must find it consistent; the source serialization must be unchanged in every case; request times/login/MAC are checked at the transport.',
    note='Trusts the simulated transports, vlib/refserver.py (Calendar, ext replies), refksi. KSI_extendSignature via a publications file is exercised under C04/C18.'),
+ 'C06': dict(level='exploration', design='3/C06', technique='runtime monitor at the transport boundary: request MACs recomputed with python hmac; exhaustive single-bit-flip / truncation / splice delivery test of authentic responses through every client',
+   text='Every request PDU seen at the simulated transport (sign, extend, config; blocking HTTP/TCP, async TCP/HTTP, HA; PDU v1/v2; keys of 1..65535 bytes; UTF-8 login ids; SHA-256/384/512/RIPEMD-160) is parsed by the reference and its MAC recomputed over the authenticated range. For responses an authentic reply from the reference server must be delivered, and every single-bit flip of it (all bits on the blocking transports, 160 sampled bits per response on async/HA), every truncation point sampled, splices, other key/algorithm/version, missing header/MAC, element after the MAC and a MAC over a wrong range must deliver nothing (v1: or exactly the honest content); SHA-1 as MAC algorithm must be refused before sending.',
+   note='Trusts python hmac/hashlib, the simulated transports and the reference PDU builder.'),
 }
 NOT_YET = 'check not built yet in this session (planned in DESIGN.md section 3)'
 
